@@ -1,0 +1,27 @@
+//go:build verif
+
+package tsm1
+
+import "go.uber.org/zap"
+
+// VerifCompactGroup runs the engine's compactionStrategy.compactGroup (compaction, install
+// through FileStore.ReplaceWithCallback, and its error handling) on one group with the
+// given compactor and file store.  Thin wrapper for the verification harness; no behaviour.
+func VerifCompactGroup(fs *FileStore, c *Compactor, group CompactionGroup, fast bool) (success, errors int64) {
+	var duration, active int64
+	s := &compactionStrategy{
+		group:        group,
+		fast:         fast,
+		level:        1,
+		durationStat: &duration,
+		activeStat:   &active,
+		successStat:  &success,
+		errorStat:    &errors,
+		logger:       zap.NewNop(),
+		compactor:    c,
+		fileStore:    fs,
+		engine:       &Engine{},
+	}
+	s.compactGroup()
+	return success, errors
+}
